@@ -405,8 +405,14 @@ package syntax
 //@   ensures ghost(jsonenc)[0] >= old(ghost(jsonenc)[0])
 
 // null is accepted by every validator and passed through unchanged (same slice) by every filter.
+//@ iface syntax.Type.IsValidJson property C17
+//@   opt deterministic on
 //@ func syntax.ArrayType.IsValidJson property C17
 //@   ensures @null old(len(data) == 4 && data[0] == 'n' && data[1] == 'u' && data[2] == 'l' && data[3] == 'l') ==> isnil(result)
+// a one-dimensional array validates only if every element validates against the ELEMENT type
+// (whatever that is - builtin, struct or typed map)
+//@   loop 1 invariant 0 <= iter && iter <= len(arr) && s.Dim == old(s.Dim) && s.Elem == old(s.Elem) && base(arr) == atloop(base(arr)) && off(arr) == atloop(off(arr)) && len(arr) == atloop(len(arr))
+//@   loop 1 invariant old(s.Dim) == 1 && len(errs) == 0 && iter > 0 ==> isnil(fn(syntax.Type.IsValidJson, s.Elem, arr[iter-1], alarms, lookup))
 //@ func syntax.TypedMapType.IsValidJson property C17
 //@   ensures @null old(len(data) == 4 && data[0] == 'n' && data[1] == 'u' && data[2] == 'l' && data[3] == 'l') ==> isnil(result)
 //@ func syntax.StructType.IsValidJson property C17
@@ -493,6 +499,7 @@ package syntax
 // denotes s.  Ghost monitor stepped at every mustWriteByte / mustWriteString.
 //@ func syntax.quoteString property C09 C16
 //@   mode bytes
+//@   effect mquoted 0
 //@   uses mrostr utf8
 //@   monitor mrostr sink w expects s
 //@   opt replay mroquote
@@ -634,3 +641,16 @@ package syntax
 //@   loop 1 invariant forall j :: 0 <= j && j < cap(disable) ==> disable[j] == old(disable[j])
 //@   ensures @droppedonlyiffalse len(v) >= 2 && isnil(result.1) && base(result.0) == base(disable) && len(result.0) == len(disable) ==> forall k string :: has(v, k) ==> istype(v[k], ptr_syntax.BoolExp) && !as(v[k], ptr_syntax.BoolExp).Value
 //@   loop 1 invariant allFalse ==> forall k string :: visited(k) ==> istype(v[k], ptr_syntax.BoolExp) && !as(v[k], ptr_syntax.BoolExp).Value
+
+// ---------------------------------------------------------------- C16 every non-empty string value is written through quoteString
+// (mquoted[0] counts quoteString calls): a string argument never reaches the invocation JSON
+// or the MRO text verbatim, whatever characters it contains.
+//@ func syntax.StringExp.MarshalJSON property C16 C09
+//@   ensures @quoted e != nil && len(e.Value) > 0 && isnil(result.1) ==> ghost(mquoted)[0] == old(ghost(mquoted)[0]) + 1
+//@ func syntax.StringExp.EncodeJSON property C16 C09
+//@   ensures @quoted e != nil && isnil(result) ==> ghost(mquoted)[0] == old(ghost(mquoted)[0]) + 1
+
+// ---------------------------------------------------------------- C15 references are equal only if they name the same output
+//@ func syntax.RefExp.equal property C15
+//@   requires !isnil(syntax.notEqualError)
+//@   ensures @sameref exp != nil && isnil(result) ==> istype(other, ptr_syntax.RefExp) && as(other, ptr_syntax.RefExp) != nil && as(other, ptr_syntax.RefExp).Kind == exp.Kind && as(other, ptr_syntax.RefExp).Id == exp.Id && as(other, ptr_syntax.RefExp).OutputId == exp.OutputId
